@@ -1,6 +1,7 @@
 import Verif.Generated.FactsOK.Common
 import Verif.Generated.FactsOK.SrcAnalyzer
 import Verif.Generated.FactsOK.SrcClassify
+import Verif.Generated.FactsOK.SrcInternal
 import Verif.Generated.FactsOK.Keys
 
 /-!
